@@ -29,7 +29,8 @@ Proof.
     assert (EL : new ++ T = n1 ++ s :: (n2 ++ T)) by (rewrite E3, <- app_assoc; reflexivity).
     rewrite EL in *. rewrite <- E4 in *. rewrite nth_mid in *. rewrite nth_mid_next in *.
     cbn zeta. rewrite E2 in Hcat.
-    apply (level_query_split c (c_kt c) eps keys g1 g2 b cs c2 s n2 k); try assumption; [apply R3; assumption |].
+    apply (level_query_split c (c_kt c) eps keys g1 g2 b cs c2 s n2 k); try assumption;
+      [apply R3; [exact Hk1 | destruct n2; [exact I | exact Hk2] | exact Hksent] |].
     destruct n2 as [|s' n2']; [|cbn [app hd] in *; split; [exact Hk2 | reflexivity]].
     cbn [app] in *. rewrite E3, zlen_app, zlen_cons in HJ1. change (zlen (@nil segment)) with 0 in HJ1.
     destruct HT as [->|(X & -> & [->|[-> _]])].
